@@ -27,6 +27,14 @@ def tree_variant(exe=None):
     return "asfound"
 
 
+def tree_inject_variant(exe=None):
+    """Does this tree let a datagram of a foreign process through to msg_process (socket transport)?  Decided by what
+    the tree does on the injection witness: 'open' (as found) or 'filtered' (fixes/C05-sock-request-sender-check.patch)."""
+    exe = exe or build()
+    r = C.run_cases(exe, ["\n".join(INJECT_WITNESS) + "\n"], timeout=60)
+    return "open" if any(l.startswith("cb msg") for l in r[0][0]) else "filtered"
+
+
 # ------------------------------------------------------------------ generator
 IDS = [0, 1, 1000, 65534]
 MODES = ["600", "660", "666", "400", "0", "640", "60", "604", "200", "700", "644", "6"]
@@ -142,11 +150,11 @@ def corpus(inject=False):
 
 
 # ------------------------------------------------------------------ execution
-def execute(cases, exe, model, variant):
+def execute(cases, exe, model, variant, inj="open"):
     texts = ["\n".join(c) + "\n" for c in cases]
     impl = C.run_cases(exe, texts, timeout=900)
     mcases = ["\n".join(lines) + "\n" for lines, crash in impl]
-    mod = C.run_cases(model, mcases, timeout=900, env={"C05_VARIANT": variant})
+    mod = C.run_cases(model, mcases, timeout=900, env={"C05_VARIANT": variant, "C05_INJECT": inj})
     if any(crash for _, crash in impl):
         sweep_residue()
     return impl, mod
